@@ -219,7 +219,9 @@ def justify(problem, scaling, params, xi, yi):
     bviol = float(max(np.max(np.maximum(ip.lb - xi, 0.0), initial=0.0), np.max(np.maximum(xi - ip.ub, 0.0), initial=0.0)))
     return {
         "violGt": bool(viol > tol * (1 - 1e-9)),
-        "infStat": bool(rn <= float(params.local_infeas_tol) * (1 + 1e-6) + 1e-12 * (1.0 + float(np.abs(J).sum()) * viol)),
+        # rounding of J^T c: n * eps * max_j sum_i |J_ij| |c_i|
+        "infStat": bool(rn <= float(params.local_infeas_tol) * (1 + 1e-6)
+                        + 8.0 * 2.2e-16 * max(1, c.size) * (float((np.abs(J).T @ np.abs(c)).max()) if c.size else 0.0)),
         "feas": bool(viol <= tol * (1 + 1e-9) and bviol <= tol * (1 + 1e-9)),
         "objLe": bool(ip.obj(xi) <= float(params.obj_lower_limit)),
     }
